@@ -39,7 +39,7 @@ end
 
 /-- a transmitted fixed-size value read into a slot of internal tag `t` -/
 def readFixed (t : TT) : TVal → Outcome Val
-  | .bool n => if t == .bool then .ok (.sc n) else .err .other
+  | .bool n => if t == .bool then .ok (.sc (if n = 1 then 1 else 0)) else .err .other
   | .i8 n => if t == .byte then .ok (.sc n) else .err .other
   | .double n => if t == .double then .ok (.sc n) else .err .other
   | .i16 n => if t == .i16 then .ok (.sc n) else .err .other
